@@ -13,8 +13,10 @@ EXTENDS Naturals, Sequences, FiniteSets
 
 Cwds == {"in", "parent", "sub", "other"}
 Stale == {"absent", "junk", "long", "sol", "R"}       \* "long": other content, longer than any report
-Modes == {"full", "one"}      \* all patterns / a configuration file selecting a single pattern: reports "R" and "R1"
-ReportOf(mode) == IF mode = "full" THEN "R" ELSE "R1"
+\* all patterns / a configuration selecting one pattern / a configuration selecting none (no finding at all):
+\* reports "R", "R1" and the empty report "R0" -- which is still written
+Modes == {"full", "one", "none"}
+ReportOf(mode) == IF mode = "full" THEN "R" ELSE IF mode = "one" THEN "R1" ELSE "R0"
 
 \* what a run in working directory c does to the map of report files
 RunEffect(rep, c, mode) == [rep EXCEPT ![c] = ReportOf(mode)]
